@@ -762,7 +762,7 @@ func (r *runner) exec(c Call) (ret map[string]interface{}, err error) {
 		d, err = r.readAll(s, c.Name)
 		e := Entry{Blob: -2}
 		r.content(&e, d, nil)
-		ret["blob"], ret["len"], ret["sha"] = e.Blob, e.Len, e.Sha
+		ret["blob"], ret["len"], ret["sha"], ret["pieces"] = e.Blob, e.Len, e.Sha, e.Pieces
 	case "readdir":
 		var f afero.File
 		f, err = s.Open(c.Name)
@@ -793,6 +793,7 @@ func (r *runner) exec(c Call) (ret map[string]interface{}, err error) {
 		fileRet(n, err)
 		if n > 0 {
 			ret["data"] = base64.StdEncoding.EncodeToString(buf[:n])
+			ret["pieces"] = r.decompose(buf[:n])
 		}
 	case "readat":
 		f := r.files[c.H]
@@ -805,6 +806,7 @@ func (r *runner) exec(c Call) (ret map[string]interface{}, err error) {
 		fileRet(n, err)
 		if n > 0 {
 			ret["data"] = base64.StdEncoding.EncodeToString(buf[:n])
+			ret["pieces"] = r.decompose(buf[:n])
 		}
 	case "seek":
 		f := r.files[c.H]
